@@ -656,3 +656,9 @@ PROPS["C20"]["rule"] += " Tasks take 1 ns, 1 s, 5 s + 1 ns, 11 s, 30 s, 31 s, 91
 
 PROPS["C03"]["rule"] += " System states include hardware addresses that are not 48 bits long (1, 4, 5, 7, 8, 16, 20, 32 bytes; one state with an address in six): whatever is built must encode (finding F20)."
 PROPS["C01"]["rule"] += " Hardware addresses are absent, 48 bits long, or (one in six of those present) 1..32 bytes long: only a 48-bit address yields a source link-layer address option."
+
+_OSSHAPE = " OS part: rtnetlink replies are built as the kernel builds them - one address in six has a peer (peer in IFA_ADDRESS, own address in IFA_LOCAL; finding F22)"
+PROPS["C13"]["rule"] += _OSSHAPE + "."
+PROPS["C14"]["rule"] += _OSSHAPE + "."
+PROPS["C15"]["rule"] += _OSSHAPE + ", and a default route comes without a destination attribute (known finding F21: those cases are excluded and counted)."
+PROPS["C01"]["rule"] += " One generated loopback route in three carries another interface index (1, 2, 17, 70 000) or kernel preference: the same destination listed again is still one destination."
